@@ -86,27 +86,27 @@ theorem computeOutflow_outflow (it : Nat → K) (n : Nat) (inflow : Nat → Nat 
 theorem inflowDriven_sbc (it : Nat → K) (n : Nat) (inflow : Nat → Nat → K) (sf : Nat → Nat → Nat → K)
     (t c j : Nat) :
     (inflowDriven it n inflow sf).stockByCohort t c j = inflow c j * dt it n c * sf t c j := by
-  unfold inflowDriven
+  unfold inflowDriven inflowDrivenWith
   simp only [cohortMul_stock, toWholePeriod_apply]
 
 theorem inflowDriven_stock (it : Nat → K) (n : Nat) (inflow : Nat → Nat → K) (sf : Nat → Nat → Nat → K)
     (t j : Nat) :
     (inflowDriven it n inflow sf).stock t j = ∑ c ∈ range n, inflow c j * dt it n c * sf t c j := by
-  unfold inflowDriven
+  unfold inflowDriven inflowDrivenWith
   simp only [sumCohorts_eq, cohortMul_stock, toWholePeriod_apply]
 
 theorem inflowDriven_obc (it : Nat → K) (n : Nat) (inflow : Nat → Nat → K) (sf : Nat → Nat → Nat → K)
     (t c j : Nat) :
     (inflowDriven it n inflow sf).outflowByCohort t c j
       = inflow c j * dt it n c * pdfTable sf t c j * (1 / dt it n t) := by
-  unfold inflowDriven
+  unfold inflowDriven inflowDrivenWith
   exact computeOutflow_obc it n inflow (pdfTable sf) t c j
 
 theorem inflowDriven_outflow (it : Nat → K) (n : Nat) (inflow : Nat → Nat → K) (sf : Nat → Nat → Nat → K)
     (t j : Nat) :
     (inflowDriven it n inflow sf).outflow t j
       = ∑ c ∈ range n, inflow c j * dt it n c * pdfTable sf t c j * (1 / dt it n t) := by
-  unfold inflowDriven
+  unfold inflowDriven inflowDrivenWith
   exact computeOutflow_outflow it n inflow (pdfTable sf) t j
 
 theorem inflowDriven_inflow (it : Nat → K) (n : Nat) (inflow : Nat → Nat → K) (sf : Nat → Nat → Nat → K) :
